@@ -428,7 +428,7 @@ Proof.
       apply core_proj in C. destruct C as (_ & C2 & C3 & _ & _ & _ & _ & C8 & C9).
       cbn [sync_index w_index t_offset t_hidden t_mcur t_msyn] in C2, C3, C8, C9.
       split; [unfold XInv, dh in *; rewrite C2, C3, C8, C9; exact HX|]. split; [unfold dh; rewrite C2, C8; lia|discriminate].
-  - destruct (open_crash_ok maxsz t ci cd cm HD HG) as (t' & E & HD' & O1 & O2 & O3 & O4 & O5 & O6 & _ & M1 & M2 & M3).
+  - destruct (open_crash_ok maxsz t ci cd cm HD HG) as (t' & E & HD' & O1 & O2 & O3 & O4 & O5 & O6 & _ & M1 & M2 & M3 & _).
     rewrite E. assert (Hdh : dh t' = dh t) by (unfold dh; rewrite O1, M3; reflexivity).
     split; [|split; [lia|discriminate]].
     unfold XInv. rewrite M1, M2, Hdh. rewrite <- (dur_head_dh maxsz t HI). unfold dur_head. rewrite <- O3.
